@@ -28,6 +28,9 @@ pub struct Workload {
     /// modification times (ns) by relative path; files not listed get base + index seconds
     pub mtimes: BTreeMap<String, i64>,
     pub mtime_base_s: i64,
+    /// add a copy of the first document under a file name full of characters that need
+    /// escaping somewhere (XML, JSON, shells, URIs)
+    pub odd_names: bool,
 }
 
 pub fn doc_rel(i: usize, f: DocFmt) -> String {
@@ -87,6 +90,9 @@ impl Workload {
         };
         for (i, (d, f)) in self.docs.iter().enumerate() {
             push(doc_rel(i, *f), doc::render(d, *f).into_bytes());
+        }
+        if self.odd_names && !self.docs.is_empty() {
+            push("data/od d&<é>'\"#%20[x]{y}$(z);.json".into(), doc::render(&self.docs[0].0, DocFmt::JsonCompact).into_bytes());
         }
         for (i, p) in self.progs.iter().enumerate() {
             push(rules_rel(i), p.print().into_bytes());
@@ -185,7 +191,7 @@ pub fn gen_workload(r: &mut Rng, o: &WlOpts) -> Workload {
     } else {
         vec![]
     };
-    Workload { docs, progs, params, tests, template, overrides: BTreeMap::new(), mtimes: BTreeMap::new(), mtime_base_s: 1_700_000_000 }
+    Workload { docs, progs, params, tests, template, overrides: BTreeMap::new(), mtimes: BTreeMap::new(), mtime_base_s: 1_700_000_000, odd_names: r.chance(1, 6) }
 }
 
 /// Append a comment full of multi-byte characters to every line of a rules or YAML text:
